@@ -2,7 +2,6 @@ package sim
 
 // Scenario payload stubs (replaced as scenarios are implemented).
 
-type DictCase struct{}
 type ReuseCase struct{}
 type DMTCase struct{}
 type HistCase struct{}
